@@ -65,11 +65,11 @@ if "C05" in which:
         ("c05_with_pending", "with_pending_sum", "[R] holdings-with-pending is the sum of the two, absent = 0."),
     ])
 
-IMPE05 = """From Coq Require Import ZArith NArith List Bool String Reals.
+IMPE05 = """From Coq Require Import ZArith NArith List Bool String Reals Floats.
 From Flocq Require Import Raux.
 From Alator Require Import Model.Num Model.Quirks Model.Cost Model.Exchange Model.Uist Model.Server Model.Broker
   Model.Strategy Model.BrokerSys Proofs.ServerProofs Proofs.ExchangeProofs Proofs.BrokerLedgerProofs Proofs.EndToEnd05
-  Proofs.EndToEnd04.
+  Proofs.EndToEnd04 Proofs.EndToEndExamples.
 Import ListNotations.
 Local Existing Instance RNum."""
 if "C05" in which:
@@ -82,6 +82,7 @@ if "C05" in which:
         ("c05s_pending_from_fresh", "c05_pending_from_fresh", "END TO END from a fresh backtest and a broker with no pending exposure, every history: pending exposure per symbol equals the signed quantity of accepted but not yet filled orders, and the map is EMPTY as soon as the exchange holds none of this broker's orders. (Premise rows_total: every date of the dataset has a row — proved of every Penelope dataset, c07_dataset_row_iff_date.)"),
         ("c05s_log_is_exchange_log", "c05_log_is_exchange_log", "First sentence, END TO END: from a fresh start, after every history the broker's trade log IS the exchange's own trade log of its backtest — exactly those trades, in execution order."),
         ("c05s_holdings_from_exchange_log", "c05_holdings_from_exchange_log", "… and holdings per symbol equal bought minus sold over the trades the exchange executed (its own log), no zero entry, keys unique."),
+        ("c05s_example", "c05_pending_observed_at_floats", "Non-vacuity, kernel-evaluated at the IEEE instance: a fresh backtest over a Penelope-loaded dataset, a deposit, two offsetting resting limit orders and a market buy, two checks — pending nets to +3 with three orders outstanding, then 0 with the entry gone while two still rest; the trade is in both logs.", True),
         ("c05s_with_pending", "c05_with_pending_end_to_end", "holdings-with-pending is holdings plus that signed quantity, and just the holdings for a symbol with nothing outstanding."),
     ])
 
